@@ -77,7 +77,10 @@ ObsReset ==
 TraceNext == Silent \/ ObsStart \/ ObsEnd \/ ObsClose \/ ObsRet \/ ObsCancel \/ ObsQuiesce \/ ObsReset
 TraceSpec == TraceInit /\ [][TraceNext]_tvars
 
-HighWater == TLCSet(1, IF TLCGet(1) > l THEN TLCGet(1) ELSE l)
+\* the whole file explained: stop (the search is depth-first, so this is reached without visiting the other interleavings
+\* of the unlogged steps; a rejected file is still explored exhaustively)
+HighWater == /\ TLCSet(1, IF TLCGet(1) > l THEN TLCGet(1) ELSE l)
+             /\ (l = Len(Trace) + 1 => TLCSet("exit", TRUE))
 TraceAccepted ==
   IF TLCGet(1) = Len(Trace) + 1 THEN TRUE
   ELSE Print(<<"TRACE_REJECTED_AT", TLCGet(1), IF TLCGet(1) <= Len(Trace) THEN Trace[TLCGet(1)] ELSE "eof">>, FALSE)
